@@ -32,7 +32,9 @@ def check(run, repo):
         'with the printed one; strings with repeated species, decimal and omitted coefficients and surrounding blanks '
         'are parsed; unknown species must raise KeyError. check_element_balance is interpreted with symbolic '
         'compositions on reactions that are balanced / unbalanced by construction (reactants vs products, reactants '
-        'vs transition state). parse_formula is interpreted on abstract formulas with repeated symbols, missing and '
+        'vs transition state; an element off by one, missing on the other side, present only on the other side). '
+        'ChemkinReaction.from_string is entered with every delimiter pair; the RING reader also reads a file whose last '
+        'line has no newline. parse_formula is interpreted on abstract formulas with repeated symbols, missing and '
         'symbolic counts; the regular expressions are decided on the abstract strings by pmv/absre.py.')
     run.assumptions = ['species names contain neither the delimiters nor blanks and do not start with a digit',
                        'collections.Counter addition modelled as key-wise sum (its dropping of non-positive totals '
@@ -57,6 +59,9 @@ def check(run, repo):
         ([2 - Fr(1, 10 ** 13), 1], [3 + Fr(1, 10 ** 13)], [1 - Fr(1, 10 ** 14)]),
         # coefficients near, but visibly not at, an integer
         ([Fr('1.995'), 1], [Fr('2.004')], [Fr('0.996')]),
+        # coefficients with more than one digit before the decimal point, integer and not
+        ([Fr(25, 2), 1], [Fr(41, 4)], [1]),
+        ([12, 10], [120], None),
     ]
     fmts = ['.2f', '.3f']
     for (sd, rd), (rs, ps, ts), space, fmt in itertools.product(delims, stoichs, (False, True), fmts):
@@ -143,6 +148,47 @@ def check(run, repo):
                   'printed without its transition state as %s the reaction parses back to %s'
                   % (show(txt, 120), show(back, 80)), owner_ts.module, fn_ts)
 
+    # the Chemkin reaction has a from_string of its own: the delimiters of the call are the delimiters of the text
+    ck = repo.cls(RX + '.ChemkinReaction')
+    owner_ck, fn_ck = repo.find_method(ck, 'from_string')
+    run.fn(RX + '.ChemkinReaction.from_string')
+    for (sd, rd), (rs, ps, ts) in itertools.product(
+            (('+', '='), (' & ', '->'), ('.', '>>'), ('+', '<=>')),
+            (([2, 12], [3], [1]), ([Fr(1, 2), 1], [Fr(5, 4), 10], None))):
+        if '.' in sd and any(isinstance(x, Fr) for x in rs + ps):
+            continue        # the known clash of '.' with decimal points is reported above
+        I = Interp(repo)
+        sp = named_species(I, [('r0', 2), ('r1', 3), ('p0', 4), ('p1', 2), ('t0', 5)])
+        for o in sp.values():
+            o.attrs['phase'] = 'G'
+        k = list(sp)
+        R_, P_, T_ = [sp[k[0]], sp[k[1]]], [sp[x] for x in k[2:2 + len(ps)]], [sp[k[4]]]
+        rxn = make_reaction(I, repo, ck, R_, [C(x) for x in rs], P_, [C(x) for x in ps],
+                            T_ if ts else None, [C(x) for x in ts] if ts else None)
+        txt = I.call_method(rxn, 'to_string', [], {'species_delimiter': sd, 'reaction_delimiter': rd})
+        back = None
+        if not isinstance(txt, Raised):
+            back = I.call_function(owner_ck.module, fn_ck, [], {'reaction_str': txt, 'species': DictV(dict(sp)),
+                                                                'species_delimiter': sd.strip(),
+                                                                'reaction_delimiter': rd.strip()},
+                                   self_obj=ck, owner=owner_ck)
+        ok = isinstance(back, Obj)
+        if ok:
+            for attr, objs, vals in (('reactants', R_, rs), ('products', P_, ps), ('transition_state', T_, ts)):
+                got_o, got_s = get_public(I, back, attr), get_public(I, back, attr + '_stoich')
+                if not vals:
+                    ok = ok and got_o is None
+                else:
+                    ok = ok and isinstance(got_o, ListV) and isinstance(got_s, ListV) and \
+                        len(got_o) == len(objs) and all(a is b for a, b in zip(got_o.items, objs)) and \
+                        len(got_s) == len(vals) and all(isinstance(a, Rat) and a.eq(C(b))
+                                                        for a, b in zip(got_s.items, vals))
+        run.check(ok, 'TABLE.roundtrip', 'ChemkinReaction.from_string',
+                  'print->parse delims=%r/%r stoich=%s|%s|%s' % (sd, rd, rs, ps, ts),
+                  'a Chemkin reaction printed as %s and parsed with the same delimiters gives %s'
+                  % (show(txt, 120), show(back.attrs if isinstance(back, Obj) else back, 160)), owner_ck.module, fn_ck,
+                  sample='ChemkinReaction print->parse delims=%r/%r' % (sd, rd) if ts else None)
+
     # ---- parsing: repeated species, omitted/decimal/integer coefficients, blanks, unknown species ----------
     I = Interp(repo)
     sp = named_species(I, [('A', 2), ('B', 3), ('TS', 4)])
@@ -157,6 +203,8 @@ def check(run, repo):
         # the repeat goes to the species' own entry, not to whatever was collected last
         ('repeated species with another in between', A + ' + 0.5' + B + ' + 2' + A + ' = ' + B,
          ([kA, kB], [3, Fr(1, 2)], [kB], [1], None, None)),
+        ('coefficients of several digits, integer and decimal', '12.5' + A + ' + 10' + B + ' = 100.25 ' + B + '+ 205' + A,
+         ([kA, kB], [Fr(25, 2), 10], [kB, kA], [Fr(401, 4), 205], None, None)),
         ('two species repeated alternately', A + '+' + B + '+' + A + '+3' + B + '=' + TSn + '=' + B + '+' + A + '+' + B,
          ([kA, kB], [2, 4], [kB, kA], [2, 1], [kT], [1])),
     ]
@@ -240,7 +288,7 @@ def ring_reader(run, repo, ci):
     if fn is None:
         raise AnchorError('pmutt.io.ring.read_reactions not found')
     run.fn('pmutt.io.ring.read_reactions')
-    for sd, rd in (('.', '>>'), ('+', '=')):
+    for (sd, rd), final_newline in itertools.product((('.', '>>'), ('+', '=')), (True, False)):
         I = Interp(repo)
         sp = named_species(I, [('A', 2), ('B', 3), ('C', 4), ('TS', 4)])
         kA, kB, kC, kT = list(sp)
@@ -250,11 +298,11 @@ def ring_reader(run, repo, ci):
                  A + sd + '2' + B + rd + Cc + '\n',
                  SegStr.lit('\n'),
                  Cc + rd + TSn + rd + A + sd + B + '\n',
-                 A + rd + X + rd + B + '\n']
+                 A + rd + X + rd + B + ('\n' if final_newline else '')]
         I.files['ring.txt'] = lines
         kw = {'filename': 'ring.txt', 'species': DictV(dict(sp)), 'species_delimiter': sd, 'reaction_delimiter': rd}
         out = I.call_function(m, fn, [], dict(kw))
-        label = 'delims=%r/%r' % (sd, rd)
+        label = 'delims=%r/%r' % (sd, rd) + ('' if final_newline else ', no newline at the end of the file')
         # the last line names a transition state that is not in the dictionary: an error by default
         run.check(isinstance(out, Raised) and out.exc == 'KeyError', 'PATH.unknown-species', 'io.ring.read_reactions',
                   label + ' unknown transition state', '[%s] a line whose transition state is not in the species '
@@ -282,8 +330,10 @@ def ring_reader(run, repo, ci):
 
 def balance(run, repo, ci):
     owner, fn = repo.find_method(ci, 'check_element_balance')
-    for case, ts_mode in itertools.product(('balanced', 'products off by one', 'element missing in products'),
-                                           (None, 'balanced', 'unbalanced')):
+    for case, ts_mode in itertools.product(('balanced', 'products off by one', 'element missing in products',
+                                            'element only in products'),
+                                           (None, 'balanced', 'unbalanced', 'element only in transition state',
+                                            'element missing in transition state')):
         I = Interp(repo)
         # the coefficients and compositions are generic numbers: totals that are not identically equal are unequal
         I.generic_point = True
@@ -300,15 +350,22 @@ def balance(run, repo, ci):
         pel = {'A': pA, 'B': totB / n3}
         if case == 'element missing in products':
             del pel['B']
+        if case == 'element only in products':
+            pel['E'] = D.sym('e1')
         p1 = Obj('p1', attrs={'elements': DictV(pel)})
         t_side = None
         if ts_mode:
-            tA = totA / n4 if ts_mode == 'balanced' else (totA - 1) / n4
-            t1 = Obj('t1', attrs={'elements': DictV({'A': tA, 'B': totB / n4})})
+            tA = (totA - 1) / n4 if ts_mode == 'unbalanced' else totA / n4
+            tel = {'A': tA, 'B': totB / n4}
+            if ts_mode == 'element only in transition state':
+                tel['E'] = D.sym('e2')
+            if ts_mode == 'element missing in transition state':
+                del tel['B']
+            t1 = Obj('t1', attrs={'elements': DictV(tel)})
             t_side = [t1]
         rxn = make_reaction(I, repo, ci, [r1, r2], [n1, n2], [p1], [n3], t_side, [n4] if t_side else None)
         r = I.call_method(rxn, 'check_element_balance', [], {})
-        should_raise = case != 'balanced' or ts_mode == 'unbalanced'
+        should_raise = case != 'balanced' or ts_mode not in (None, 'balanced')
         run.check(isinstance(r, Raised) == should_raise and (not should_raise or r.exc == 'ValueError'),
                   'REF.balance', 'Reaction.check_element_balance', '%s / TS %s' % (case, ts_mode),
                   'reaction (%s, transition state %s) must %s; got %s'
@@ -338,6 +395,12 @@ def formulas(run, repo):
         ('symbolic count', el('C') + SegStr.field(n1, 3, 'num', 'd') + el('C') + '2', {Z + 'C': n1 + 2}),
         ('literal formula', 'CH3CH2OH', {'C': C(2), 'H': C(6), 'O': C(1)}),
         ('literal formula with two-letter symbols', 'Al2O3', {'Al': C(2), 'O': C(3)}),
+        # every decimal digit may stand at every place of a count except a leading zero
+        ('counts with the digit zero', el('C') + '10' + el('H') + '205' + el('Pt') + '100' + el('C') + '90',
+         {Z + 'C': C(100), Z + 'H': C(205), Z + 'Pt': C(100)}),
+        ('literal formulas with the digit zero in a count', 'C10H22', {'C': C(10), 'H': C(22)}),
+        ('literal formula with all digits', 'Al20O30C456H789Pt1', {'Al': C(20), 'O': C(30), 'C': C(456), 'H': C(789),
+                                                                  'Pt': C(1)}),
     ]
     for label, formula, want in cases:
         r = I.call_function(pm, fn, [], {'formula': formula})
@@ -374,5 +437,26 @@ MUTANTS = [
     {'name': 'to_string writes products before transition state', 'expect': ('TABLE', 'from_string'),
      'edits': [(R_, "        if include_TS and self.transition_state is not None:\n            reaction_str += _write_reaction_state(\n                species=self.transition_state,\n                stoich=self.transition_state_stoich,",
                 "        if include_TS and self.transition_state is not None:\n            reaction_str += _write_reaction_state(\n                species=self.products,\n                stoich=self.products_stoich,")]},
+    {'name': 'coefficient regex takes one digit before the decimal point', 'expect': ('TABLE', 'Reaction.from_string'),
+     'edits': [(R_, r"re.search(r'^\d+\.?\d*', specie)", r"re.search(r'^\d\.?\d*', specie)")]},
+    {'name': 'a zero digit ends the count of an element', 'expect': ('REF.formula', 'parse_formula'),
+     'edits': [('pmutt/__init__.py', r"r'([A-Z][a-z]*)(\d*)'", r"r'([A-Z][a-z]*)([1-9]*)'")]},
+    {'name': 'balance looks only at the elements of the reactants (products)', 'expect': ('REF.balance', 'check_element_balance'),
+     'edits': [(R_, '        if reactant_elements != product_elements:\n',
+                '        for element, count in reactant_elements.items():\n'
+                '          if product_elements.get(element) != count:\n')]},
+    {'name': 'balance looks only at the elements of the transition state', 'expect': ('REF.balance', 'check_element_balance'),
+     'edits': [(R_, '            if reactant_elements != TS_elements:\n',
+                '            for element, count in TS_elements.items():\n'
+                '              if reactant_elements.get(element) != count:\n')]},
+    {'name': 'balance looks only at the elements of the reactants (transition state)', 'expect': ('REF.balance', 'check_element_balance'),
+     'edits': [(R_, '            if reactant_elements != TS_elements:\n',
+                '            for element, count in reactant_elements.items():\n'
+                '              if TS_elements.get(element) != count:\n')]},
+    {'name': 'Chemkin from_string parses with the default species delimiter', 'expect': ('TABLE.roundtrip', 'ChemkinReaction.from_string'),
+     'edits': [(R_, "        rxn = super().from_string(reaction_str=reaction_str,\n                                  species=species,\n                                  species_delimiter=species_delimiter,",
+                "        rxn = super().from_string(reaction_str=reaction_str,\n                                  species=species,")]},
+    {'name': 'RING reader cuts the last character instead of the newline', 'expect': ('', 'ring.read_reactions'),
+     'edits': [('pmutt/io/ring.py', "line.replace('\\n', '')", "line[:-1]")]},
 ]
 EQUIV = []
